@@ -746,6 +746,22 @@ def run_impostor_initiator(conf_name, guess):
         # key cut short / extended)
         wrong = RK.psk_auth(prf_name, b'not-the-key', octets)
         forged = PayloadAUTH(2, {b'empty': b'', b'one-octet': b'\0', b'cut-short': wrong[:8], b'extended': wrong + b'\0' * 8}[guess[10:]])
+    if guess == b'answer-the-probe':
+        # no AUTH at all, and patience: Mallory completes IKE_SA_INIT (anybody can) and then waits.  Whatever the responder
+        # sends her on that half-open IKE_SA in the next two minutes (a liveness check?) she answers correctly protected -
+        # she has the keys of that IKE_SA - and then she asks for a CHILD_SA.  Nothing of this authenticates anybody.
+        keys_m = F.Keys(m_init.my_crypto)
+        for _ in range(130):
+            w.step(('tick', 1.0))
+            for d in list(w.net):
+                w.step(('drop', d.id))
+                if d.sender == 'B' and d.data[0:8] == bytes(req.spi_i) and not d.data[19] & 0x20 and d.data[18] != 34:
+                    mid = int.from_bytes(d.data[20:24], 'big')
+                    ans = F.protect(d.data[0:8], d.data[8:16], d.data[18], 0x28, mid, [], keys_m)
+                    delivered.append(('B', ans))
+                    w.step(('inject', 'B', ans, A_ADDR))
+        w.net[:] = []
+        guess = b'skip-auth'
     if guess == b'skip-auth':
         # no AUTH at all: a protected CREATE_CHILD_SA request (Message ID 1) in place of IKE_AUTH, and an INFORMATIONAL
         from message import PayloadNONCE, Message
@@ -1212,7 +1228,7 @@ def main():
     cases += [('mitm', 'impostor-responder:0:%s' % a) for a in ('other-exchange-37', 'other-exchange-36', 'other-exchange-34',
                                                                 'clear-informational-to-init')]
     cases += [('mitm', 'impostor-initiator|%s|%s' % (c, g.hex())) for c in ('psk', 'rsa', 'mm:b-has-pubkey-and-psk-a-sends-psk-wrong')
-              for g in (b'', b'testing2', b'alice@openikev2', b'testing-not', b'skip-auth', b'auth-data:empty', b'auth-data:one-octet',
+              for g in (b'', b'testing2', b'alice@openikev2', b'testing-not', b'skip-auth', b'answer-the-probe', b'auth-data:empty', b'auth-data:one-octet',
                         b'auth-data:cut-short', b'auth-data:extended')]
     cases += [('mitm', 'impostor-initiator|%s|%s' % (c, b'replay-recorded-auth'.hex())) for c in ('psk', 'rsa')]
     cases += [('mitm', 'foreign-initiator:%s' % v) for v in FOREIGN_INIT_VARIANTS]
